@@ -33,6 +33,7 @@ type Engine struct {
 	storedGlob  map[*ssa.Global]int
 	loadErrs    []string
 	aliases     map[string]map[string]string // package path -> import alias -> import path
+	genNotes    []string
 }
 
 func loadEngine(repo, buildDir string, patterns []string) (*Engine, error) {
@@ -47,6 +48,13 @@ func loadEngine(repo, buildDir string, patterns []string) (*Engine, error) {
 		BuildFlags: []string{"-modfile=" + mf, "-tags=verif"},
 		Env: append(os.Environ(), "GOFLAGS=-mod=mod", "GOPROXY=off", "GOSUMDB=off", "GOTOOLCHAIN=local",
 			"CGO_ENABLED=1"),
+	}
+	// generated lemma functions (C11 pairing of validators and apply handlers): overlay, never written to the repo
+	if src, gerr := genC11Go(repo); gerr == nil {
+		cfg.Overlay = map[string][]byte{filepath.Join(repo, "node", "zz_verif_gen_c11.go"): []byte(src)}
+		os.WriteFile(filepath.Join(buildDir, "zz_verif_gen_c11.go"), []byte(src), 0o644)
+	} else {
+		e.loadErrs = append(e.loadErrs, "gen_c11: "+gerr.Error())
 	}
 	pkgs, err := packages.Load(cfg, patterns...)
 	if err != nil {
@@ -276,6 +284,26 @@ func (e *Engine) loadContracts(trustedDir string) error {
 				return err
 			}
 		}
+	}
+	// contracts of the generated C11 pairing lemmas
+	nodePkg := repoMod + "/node"
+	spec, notes, err := genC11Spec(e.repo, func(h string) bool {
+		_, ok := e.cs.Contracts["(*"+nodePkg+".kvStoreSM)."+h]
+		return ok
+	}, func(w string) bool {
+		_, ok := e.cs.Specs[nodePkg+".shape_"+w]
+		return ok
+	})
+	if err != nil {
+		return err
+	}
+	e.genNotes = notes
+	sp := filepath.Join(e.buildDir, "zz_verif_gen_c11.spec")
+	if err := os.WriteFile(sp, []byte(spec), 0o644); err != nil {
+		return err
+	}
+	if err := e.cs.ParseFile(sp, nodePkg); err != nil {
+		return err
 	}
 	return nil
 }
